@@ -272,6 +272,38 @@ fn backend_items(items: &mut Vec<Item>, depth: usize) {
     }
 }
 
+#[cfg(feature = "serde")]
+fn serde_items<V: crate::checks::c16::SerdeVariant>(items: &mut Vec<Item>, depth: usize)
+where
+    V::Hash: serde::Serialize + serde::de::DeserializeOwned,
+{
+    use crate::checks::c16::*;
+    let v = V::NAME;
+    let n = events_for::<V>().len();
+    let chunk = if depth >= 2 { 16 } else { 48 };
+    for human in [true, false] {
+        for lo in (0..n).step_by(chunk) {
+            push(items, "serde", format!("{v}/serde-events/human={human}/{lo}.."), move || {
+                let evs = events_for::<V>();
+                for ev in evs[lo..(lo + chunk).min(evs.len())].iter() {
+                    judge_event::<V>(human, ev)?;
+                }
+                Ok(())
+            });
+        }
+    }
+    for k in [0u64, 3 * 256 + 0x5a, (V::SIZE as u64 - 1) * 1024 + 0xff] {
+        push(items, "serde", format!("{v}/serde-formats/{k}"), move || {
+            let b = value_by_index::<V>(k);
+            if constructible::<V>(&b) {
+                judge_serialize_events::<V>(&b)?;
+                judge_formats::<V>(&b)?;
+            }
+            Ok(())
+        });
+    }
+}
+
 pub fn items(depth: usize) -> Vec<Item> {
     let mut v = Vec::new();
     per_variant::<VShort>(&mut v, depth);
@@ -281,13 +313,24 @@ pub fn items(depth: usize) -> Vec<Item> {
     per_variant::<VLongLC>(&mut v, depth);
     #[cfg(fast_tlsh_verif)]
     backend_items(&mut v, depth);
+    #[cfg(feature = "serde")]
+    {
+        serde_items::<VShort>(&mut v, depth);
+        serde_items::<VNormal>(&mut v, depth);
+        serde_items::<VNormalLC>(&mut v, depth);
+        serde_items::<VLong>(&mut v, depth);
+        serde_items::<VLongLC>(&mut v, depth);
+    }
     v
 }
 
 /// Runs shard `k` of `n` (items with index % n == k); `only` = one item index.
-pub fn run(depth: usize, k: usize, n: usize, only: Option<usize>, list: bool) -> Value {
+pub fn run(depth: usize, k: usize, n: usize, only: Option<usize>, list: bool, kinds: Option<&str>) -> Value {
     quiet_panics();
-    let items = items(depth);
+    let mut items = items(depth);
+    if let Some(ks) = kinds {
+        items.retain(|it| ks.split(',').any(|x| x == it.kind));
+    }
     let mut ran = 0u64;
     let mut by_kind: HashMap<&'static str, u64> = HashMap::new();
     let mut violations = Vec::new();
